@@ -24,6 +24,7 @@ type propSpec struct {
 	Patterns []string
 	Level    string
 	Extra    func(pc *propCheck) // non-contract components (sweeps, regex, bounded)
+	Filter   func(o *Obligation) bool // which obligations of the contracts belong to this property (nil: all)
 }
 
 var props = map[string]*propSpec{}
@@ -182,6 +183,15 @@ func runCheck(id, tier string) int {
 	}
 	for _, c := range cons {
 		r := p.verifyFunc(c)
+		if ps.Filter != nil {
+			var keep []*Obligation
+			for _, o := range r.vc.obls {
+				if o.MustFail || o.Cover || o.Kind == "engine" || o.Kind == "contract-binding" || ps.Filter(o) {
+					keep = append(keep, o)
+				}
+			}
+			r.vc.obls = keep
+		}
 		pc.Results = append(pc.Results, r)
 		pc.Obls = append(pc.Obls, r.vc.obls...)
 	}
